@@ -179,6 +179,7 @@ impl Ctx {
                 let sc = scan(input, s.specials);
                 self.rep.count(&format!("class.{}", sc.class));
                 self.rep.max("max.suffix_len", (input.len() - sc.consumed) as i64);
+                self.rep.max("max.input_len", input.len() as i64);
                 if let Want::Number { exp, .. } = &sc.want {
                     if *exp > i32::MAX as i128 || *exp < i32::MIN as i128 {
                         self.rep.count("class.exponent_beyond_i32");
@@ -296,6 +297,47 @@ fn gen_string(rng: &Rng) -> (Vec<u8>, &'static str) {
                 s.push(*rng.pick(alpha));
             }
             return (s, "alphabet_soup");
+        }
+        3 if rng.chance(1, 25) => {
+            // a very long run of zeros cancelled by an equally large exponent: "0." 0{N} digits "e" (N+k)  or  digits 0{N} "e-" (N-k),
+            // N up to 3 x 10^6 and biased to just beyond the places where a narrowed or prematurely saturated exponent breaks
+            let n = if rng.chance(1, 2) {
+                (100.0 * (30000.0f64).powf(rng.below(1 << 20) as f64 / (1u64 << 20) as f64)) as usize
+            } else {
+                let base = *rng.pick(&[1usize << 15, 1 << 16, 10 << 16, 1 << 20, 1 << 21, 100_000, 1_000_000]);
+                base + rng.below(base as u64 / 10 + 2) as usize
+            };
+            let nd = rng.range(1, 20) as usize;
+            let mut digits = vec![b'0'; nd];
+            for d in digits.iter_mut() {
+                *d = b'0' + rng.below(10) as u8;
+            }
+            digits[0] = b'1' + rng.below(9) as u8;
+            let k = rng.range(-330, 310);
+            match rng.below(3) {
+                0 => s.push(b'-'),
+                1 => s.push(b'+'),
+                _ => {}
+            }
+            if rng.chance(1, 2) {
+                s.extend_from_slice(b"0.");
+                s.resize(s.len() + n, b'0');
+                s.extend_from_slice(&digits);
+                s.push(b'e');
+                s.extend_from_slice((n as i64 + k).to_string().as_bytes());
+            } else {
+                s.extend_from_slice(&digits);
+                s.resize(s.len() + n, b'0');
+                if rng.chance(1, 3) {
+                    s.extend_from_slice(b".000");
+                }
+                s.extend_from_slice(b"E-");
+                s.extend_from_slice((n as i64 - k).to_string().as_bytes());
+            }
+            if rng.chance(1, 3) {
+                s.extend_from_slice(b"x");
+            }
+            return (s, "compensated_long_zero_run");
         }
         _ => {}
     }
@@ -453,7 +495,7 @@ fn main() {
         let (s, tag) = gen_string(&rng);
         ctx.one(&subs, &s, tag);
     }
-    for k in ["class.integer", "class.decimal", "class.scientific", "class.no_number", "class.exp_marker_without_digits", "class.point_without_digits", "class.special_nan", "class.special_inf", "class.special_infinity", "class.exponent_beyond_i32", "gen.grammar", "gen.mutated", "gen.random_bytes", "gen.specials"] {
+    for k in ["class.integer", "class.decimal", "class.scientific", "class.no_number", "class.exp_marker_without_digits", "class.point_without_digits", "class.special_nan", "class.special_inf", "class.special_infinity", "class.exponent_beyond_i32", "gen.grammar", "gen.mutated", "gen.random_bytes", "gen.specials", "gen.compensated_long_zero_run"] {
         ctx.rep.require(k);
     }
     ctx.rep.finish();
